@@ -209,10 +209,14 @@ fn err_line(e: &ParserError) -> String {
     }
 }
 
-fn real_parse(d: &dyn Dialect, limit: usize, toks: &[Token]) -> String {
+fn real_parse(d: &dyn Dialect, limit: usize, toks: &[Token], tc: Option<bool>) -> String {
     let n = toks.len();
     match guard(|| {
-        let mut p = Parser::new(d).with_recursion_limit(limit).with_tokens(toks.to_vec());
+        let mut p = Parser::new(d).with_recursion_limit(limit);
+        if let Some(tc) = tc {
+            p = p.with_options(sqlparser::parser::ParserOptions::new().with_trailing_commas(tc));
+        }
+        let mut p = p.with_tokens(toks.to_vec());
         let r = p.parse_data_type();
         (r, p.verif_state().0)
     }) {
@@ -234,7 +238,7 @@ const TYPE_KWS: [&str; 73] = [
 ];
 
 /// what may follow a type keyword: every optional-parameter form of the grammar, well formed and not
-const TAILS: [&str; 72] = [
+const TAILS: [&str; 81] = [
     "", "(0)", "(1)", "(255)", "(18446744073709551615)", "(18446744073709551616)", "(1.5)", "(1e3)", "(007)", "(abc)", "()", "(",
     "(1", "(1,", "(1,2)", "(0,18446744073709551615)", "(1,2,3)", "(1 2)", " UNSIGNED", "(3) UNSIGNED", " UNSIGNED(3)",
     " PRECISION", " VARYING", " VARYING(5)", " VARYING(MAX)", " LARGE OBJECT", " LARGE OBJECT(5)", " LARGE", " LARGE(5)",
@@ -243,6 +247,23 @@ const TAILS: [&str; 72] = [
     "(,)", "('it''s')", "(3, 'UTC')", "(3, UTC)", "(3, \"UTC\")", "(3, E'UTC')", "(3, U&'UTC')", "(3, N'x')", "(3, INT)", "(3,)",
     "[]", "[5]", "[][]", "[5][6]", "[1.5]", "[", "[5", "[18446744073709551616]", "<INT>", "<INT", "<INT>>", "<>", "(INT)",
     "(INT, TEXT)", ".x", ".",
+    // label lists (parse_comma_separated of single-quoted strings, then `)`): trailing comma, missing separator, list ends
+    "('a','b',)", "('a',,)", "('a', from)", "('a',", "('a','b'", "('a',]", "('a' = 1)", "('a', 'b' 'c')", "('a', 1)",
+];
+
+/// label lists of ENUM / SET under BOTH values of `ParserOptions::trailing_commas` (every dialect):
+/// well formed, trailing comma before `)` / EOF / `;` / `]` / `}` / a reserved word / a plain word,
+/// doubled comma, missing separator, no label, non-string elements, `'a' = 1`
+const LABEL_TAILS: [&str; 30] = [
+    "('a')", "('a','b')", "('a','b','c')", "('a',)", "('a','b',)", "('a','b',,)", "('a',,'b')", "('a' 'b')", "('a','b' 'c')", "(,)", "(,'a')", "()", "(", "('a'",
+    "('a',", "('a','b'", "('a',;", "('a',;)", "('a',]", "('a',})", "('a', from)", "('a', union)", "('a', with)", "('a', b)", "('a', \"b\")", "('a', 1)", "('a' = 1)",
+    "('a',) x", "('a',), 'b'", "('it''s', '',)",
+];
+
+/// the same lists inside other types (the closers of the enclosing type follow the label list)
+const LABEL_NESTS: [&str; 12] = [
+    "Nullable(ENUM('a',))", "Nullable(ENUM('a','b'))", "ARRAY<ENUM('a','b',)>", "ARRAY<SET('a' 'b')>", "STRUCT<a ENUM('a',), b INT>", "Tuple(ENUM('a',), INT)",
+    "Map(String, SET('x',))", "ENUM('a',)[]", "Nested(a ENUM('a','b',), b SET('c'))", "UNION(a ENUM('a',), b INT,)", "STRUCT(a SET('x','y',))", "Array(ENUM('a', from))",
 ];
 
 const TAILS2: [&str; 30] = [
@@ -307,8 +328,19 @@ impl Stream {
 }
 
 fn emit_parse(s: &mut Stream, r: &mut Report, dn: &str, d: &dyn Dialect, limit: usize, toks: &[Token], class: &str) {
-    writeln!(s.req, "dtparse\t{dn}\t{limit}\t{}", if toks.is_empty() { "-".to_string() } else { toks_canon_noloc(toks) }).unwrap();
-    let a = real_parse(d, limit, toks);
+    emit_parse_tc(s, r, dn, d, limit, toks, class, None)
+}
+
+/// `tc`: `None` = the dialect's own `ParserOptions` (what `Parser::new` sets), `Some(b)` = the option
+/// `trailing_commas` forced to `b` (fifth request field `0`/`1`)
+#[allow(clippy::too_many_arguments)]
+fn emit_parse_tc(s: &mut Stream, r: &mut Report, dn: &str, d: &dyn Dialect, limit: usize, toks: &[Token], class: &str, tc: Option<bool>) {
+    let toks_s = if toks.is_empty() { "-".to_string() } else { toks_canon_noloc(toks) };
+    match tc {
+        None => writeln!(s.req, "dtparse\t{dn}\t{limit}\t{toks_s}").unwrap(),
+        Some(b) => writeln!(s.req, "dtparse\t{dn}\t{limit}\t{toks_s}\t{}", b as u8).unwrap(),
+    }
+    let a = real_parse(d, limit, toks, tc);
     r.evaluations += 1;
     r.count(&format!("class/{class}"));
     let kind = if a.starts_with("OK") {
@@ -362,7 +394,7 @@ fn random_nest(rng: &mut Rng, depth: usize) -> String {
 }
 
 pub fn corr_parse(dir: &str, seed: u64, tier: &str) -> Report {
-    let mut r = Report::new("C18", "corr.dtparse", "real Parser::parse_data_type on token vectors (real tokenizer, whitespace dropped) vs model parseDT, answer = S-expression of the value + number of tokens left, or the error (message incl. found token; class for the two `unmatched >` errors and the recursion limit): 73 type keywords + plain/quoted custom names x 72 parameter tails (absent/0/1/255/2^64-1/2^64/non-integers, precision+scale, UNSIGNED, PRECISION, VARYING, LARGE OBJECT, WITH/WITHOUT TIME ZONE and their truncations, MAX/CHARACTERS/OCTETS, label lists, DateTime64 zones of every string-token kind, [] suffixes, <..> and (..) element forms) + 30 field-list tails, 50 custom-name/modifier forms (string-literal modifiers with blanks, doubled quotes, backslashes), the nesting grid (18 wrappers incl. ARRAY<@>, ARRAY<@ >, STRUCT<..@>, Map, Tuple, Nested, Nullable, [] suffixes, DuckDB STRUCT(..)/UNION(..)) to depth 2 (thorough: 3) over 3 bases, every truncation / single-token deletion / token replacement of the depth-1 and sampled depth-2 texts, nesting around the recursion limit, random deeper nestings; x 13 dialects; non-trivial = distinct (dialect, answer)");
+    let mut r = Report::new("C18", "corr.dtparse", "real Parser::parse_data_type on token vectors (real tokenizer, whitespace dropped) vs model parseDT, answer = S-expression of the value + number of tokens left, or the error (message incl. found token; class for the two `unmatched >` errors and the recursion limit): 73 type keywords + plain/quoted custom names x 81 parameter tails (absent/0/1/255/2^64-1/2^64/non-integers, precision+scale, UNSIGNED, PRECISION, VARYING, LARGE OBJECT, WITH/WITHOUT TIME ZONE and their truncations, MAX/CHARACTERS/OCTETS, label lists incl. trailing comma / missing separator / list ends; ENUM/SET label lists x 30 tails + 12 nested forms under BOTH values of ParserOptions::trailing_commas, DateTime64 zones of every string-token kind, [] suffixes, <..> and (..) element forms) + 30 field-list tails, 50 custom-name/modifier forms (string-literal modifiers with blanks, doubled quotes, backslashes), the nesting grid (18 wrappers incl. ARRAY<@>, ARRAY<@ >, STRUCT<..@>, Map, Tuple, Nested, Nullable, [] suffixes, DuckDB STRUCT(..)/UNION(..)) to depth 2 (thorough: 3) over 3 bases, every truncation / single-token deletion / token replacement of the depth-1 and sampled depth-2 texts, nesting around the recursion limit, random deeper nestings; x 13 dialects; non-trivial = distinct (dialect, answer)");
     let thorough = tier == "thorough";
     let mut s = Stream::new(dir, "dtparse");
     let mut rng = Rng(seed ^ 0xC18);
@@ -386,6 +418,24 @@ pub fn corr_parse(dir: &str, seed: u64, tier: &str) -> Report {
         emit_parse(&mut s, &mut r, dn, d, lim, &[], "empty");
         for junk in ["1", "'a'", "(", ")", ",", ">", ">>", "<", "[", "]", ".", "*", "$1", "N'x'", "X'1'", "@a", "?", "::", "INT INT", "INT,", "INT)"] {
             emit_text(&mut s, &mut r, dn, d, lim, junk, "junk");
+        }
+    }
+    // label lists under both values of the option, whatever the dialect's default
+    for (dn, d) in &ds {
+        let d = d.as_ref();
+        for tc in [false, true] {
+            for k in ["ENUM", "SET", "enum"] {
+                for t in LABEL_TAILS {
+                    if let Some(toks) = lex(d, &format!("{k}{t}")) {
+                        emit_parse_tc(&mut s, &mut r, dn, d, lim, &toks, "labels", Some(tc));
+                    }
+                }
+            }
+            for t in LABEL_NESTS {
+                if let Some(toks) = lex(d, t) {
+                    emit_parse_tc(&mut s, &mut r, dn, d, lim, &toks, "labels.nested", Some(tc));
+                }
+            }
         }
     }
     r.exhaustive = true;
